@@ -413,6 +413,69 @@ def collect (cfg : Cfg) (f : Filter) (fromB toB chunk limit : Nat) : Nat → Nod
       if t.isEmpty then some evs
       else (collect cfg f fromB toB chunk limit fuel n' (some t)).map (evs ++ ·)
 
+/-! ## Queries that include pre-confirmed blocks -/
+
+/-- `blockchain.PreConfirmedFilterSentinel` (`math.MaxUint64`): the `pre_confirmed` block tag. -/
+def sentinel : Nat := 2 ^ 64 - 1
+
+/-- `EventMatcher.TestBloom` on a header bloom. -/
+def testBloom (f : Filter) (blk : Block) : Bool := mayMatch (fun it => blk.bloom.contains it) f
+
+/-- The loop of `preConfirmedEvents` over the pre-confirmed blocks `num, num+1, …` (oldest first). -/
+def scanPre (f : Filter) (chunk fromB toB : Nat) : Nat → List Block → List Emitted → Nat → List Emitted × Token
+  | _, [], acc, _ => (acc, Token.none)
+  | num, blk :: rest, acc, skip =>
+    if num < fromB then scanPre f chunk fromB toB (num + 1) rest acc skip
+    else if num > toB then (acc, Token.none)
+    else if !testBloom f blk then scanPre f chunk fromB toB (num + 1) rest acc 0
+    else
+      match scanGo f skip chunk (blockRaw num blk) 0 acc with
+      | (acc', p, true) => (acc', ⟨num, p⟩)
+      | (acc', _, false) => scanPre f chunk fromB toB (num + 1) rest acc' 0
+
+/-- `EventFilter.Events` when the pre-confirmed reader returns the chain `pre` (oldest first,
+non-empty) whose first block is `base + 1`: the canonical part ends at `base`
+(`headAndPreConfirmed`), then `preConfirmedEvents` continues. With `pre = []` this is `events`. -/
+def eventsPre (cfg : Cfg) (n : Node) (f : Filter) (fromB toB : Nat) (tok : Option Token) (chunk limit : Nat)
+    (base : Nat) (pre : List Block) : PageRes × WinMap :=
+  if pre.isEmpty then events cfg n f fromB toB tok chunk limit
+  else
+    match n.chain.length with
+    | 0 => (.err .empty, n.cache)
+    | height + 1 =>
+      let start := match tok with | some t => t.b | none => fromB
+      let skip := match tok with | some t => t.p | none => 0
+      if toB != sentinel && toB ≤ height then canonical cfg n f chunk limit start toB skip
+      else if toB ≤ base then canonical cfg n f chunk limit start toB skip
+      else
+        let fromPre := if start == sentinel then base + pre.length else start
+        if start ≤ base then
+          match canonical cfg n f chunk limit start base skip with
+          | (.err e, c) => (.err e, c)
+          | (.ok acc t, c) =>
+            if !t.isEmpty then (.ok acc t, c)
+            else
+              let r := scanPre f chunk fromPre toB (base + 1) pre acc 0
+              (.ok r.1 r.2, c)
+        else
+          let r := scanPre f chunk fromPre toB (base + 1) pre [] skip
+          (.ok r.1 r.2, n.cache)
+
+def queryPre (cfg : Cfg) (n : Node) (f : Filter) (fromB toB : Nat) (tok : Option Token) (chunk limit : Nat)
+    (base : Nat) (pre : List Block) : Node × PageRes :=
+  let r := eventsPre cfg n f fromB toB tok chunk limit base pre
+  ({ n with cache := r.2 }, r.1)
+
+def collectPre (cfg : Cfg) (f : Filter) (fromB toB chunk limit base : Nat) (pre : List Block) :
+    Nat → Node → Option Token → Option (List Emitted)
+  | 0, _, _ => none
+  | fuel + 1, n, tok =>
+    match queryPre cfg n f fromB toB tok chunk limit base pre with
+    | (_, .err _) => none
+    | (n', .ok evs t) =>
+      if t.isEmpty then some evs
+      else (collectPre cfg f fromB toB chunk limit base pre fuel n' (some t)).map (evs ++ ·)
+
 /-! ## Histories -/
 
 inductive Op where
